@@ -192,4 +192,15 @@ META = {
                             "rule_split-literal-union": 200, "rule_typing-alias<->builtin-generic": 500, "rule_edit-Literal[0]<->Literal[False]": 100, "rule_Optional<->Union[X,None]": 50}},
         assumptions=["the meaning of an expression is decided by vlib/props/c15.canon (flattened, de-duplicated unions; literal members by (type, value); Literal[None] = None)"],
     ),
+    "C16": _m(
+        "one case = one symbolically generated generic class hierarchy (dataclass / attrs / TypedDict: single class, 2- and 3-level chains with partial binding, "
+        "re-ordering, nesting of type variables inside arguments, shadowing, members overridden by re-annotation, diamonds; NamedTuple: single generic class; arity 1-3; "
+        "unbounded, bound and constrained TypeVars; member annotations T, List[T], Dict[str, T], Optional[T], Tuple[T, U] to depth 2) x (bare use + 4 random parametrisations "
+        "from a pool of 6 pairwise-disjoint types) x (conforming datum, its dump, and for every field a datum fitting only another substitution). The closed type of every "
+        "field comes from plain substitution on the generator's AST. distinct = (hierarchy source, parametrisation, datum kind, field); non-trivial = >= 2 classes or >= 2 type variables, or a non-conforming datum",
+        cases=(60, 1500), budget=(50, 420),
+        minimums={"quick": {"hierarchies": 400, "conforming_loads": 1200, "nonconforming_loads": 2500, "dumps": 1200, "feature_diamond": 20, "feature_partial_binding": 80,
+                            "feature_bare_use": 200, "feature_overridden_member": 30, "feature_bound_or_constrained_typevar": 30, "distinct_nontrivial": 2500}},
+        assumptions=["pool types are pairwise disjoint under strict coercion on JSON data (int, str, bool, List[int], Dict[str, str], None), so rejection identifies the substitution"],
+    ),
 }
